@@ -22,6 +22,8 @@ import AmrK.MaxMins
 import AmrK.TasteData
 import AmrK.BoxSel
 import AmrK.MenuClass
+import AmrK.MeshEq
+import AmrK.F64Text
 import AmrK.TasteCoords
 import AmrK.CellHRewrite
 import AmrK.HeaderRewrite
@@ -457,6 +459,38 @@ def opMaxMins (j : Json) : Except String Json := do
     let enc := fun (t : List (Bytes × List Bytes)) => toJson (t.map fun p => (str p.1, p.2.map str))
     return Json.mkObj [("status", "ok"), ("mins", enc (MaxMins.byField names mins)), ("maxs", enc (MaxMins.byField names maxs))]
 
+/-- decimal float tokens against the bits Python reads them as -/
+def opFloatTokens (j : Json) : Except String Json := do
+  let toks ← (← j.getObjVal? "tokens").getArr?
+  let bits ← (← j.getObjVal? "bits").getArr?
+  let res ← (List.zip toks.toList bits.toList).mapM fun (t, b) => do
+    let tok := (← t.getStr?).toUTF8.toList
+    let w ← b.getNat?
+    return match F64.tokenOK tok w with
+      | none => "unsupported"
+      | some true => "nearest"
+      | some false => "not-nearest"
+  return Json.mkObj [("status", "ok"), ("verdicts", toJson res)]
+
+/-- `PlotfileCooker.__eq__` -/
+def meshLvOfJson (j : Json) : Except String MeshEq.Lv := do
+  let bs ← (← j.getObjVal? "bounds").getArr?
+  let bounds ← bs.toList.mapM fun b => do
+    (← b.getArr?).toList.mapM fun d => do
+      let a ← d.getArr?
+      return (← ratOfJson a[0]!, ← ratOfJson a[1]!)
+  let is ← (← j.getObjVal? "idx").getArr?
+  let idx ← is.toList.mapM fun b => do
+    let a ← b.getArr?
+    return (← intListJ a[0]!, ← intListJ a[1]!)
+  return { bounds := bounds, idx := idx }
+def opMeshEq (j : Json) : Except String Json := do
+  let la ← (← j.getObjVal? "limA").getNat?
+  let lb ← (← j.getObjVal? "limB").getNat?
+  let A ← (← (← j.getObjVal? "A").getArr?).toList.mapM meshLvOfJson
+  let B ← (← (← j.getObjVal? "B").getArr?).toList.mapM meshLvOfJson
+  return Json.mkObj [("status", "ok"), ("equal", toJson (MeshEq.eq la lb A B))]
+
 /-- menu's classification of the header's fields against the database sent along -/
 def opMenuVars (j : Json) : Except String Json := do
   let tb ← (← j.getObjVal? "table").getArr?
@@ -716,6 +750,8 @@ partial def loop (h : IO.FS.Stream) (out : IO.FS.Stream) (files : Std.HashMap St
         | "taste_data" => opTasteData files j
         | "boxsel" => opBoxSel j
         | "menu_vars" => opMenuVars j
+        | "mesh_eq" => opMeshEq j
+        | "float_tokens" => opFloatTokens j
         | "fab_rows" => opFabRows files j
         | "combine_cellh" => opCombineCellH j
         | "rewrite_header" => opRewriteHeader j
